@@ -331,11 +331,17 @@ static std::string runCase(const std::string &line)
             return "nomodel";
         }
         out = "ok\t" + ent(m);
-        auto v = Validator::create();
-        v->validateModel(m);
-        out += "\tV=" + std::to_string(v->issueCount());
+        bool cyclic = unitsCycle(m);
+        if (cyclic) {
+            // (the Validator also recurses without end on such units when a connection uses them: not called)
+            out += "\tV=-1";
+        } else {
+            auto v = Validator::create();
+            v->validateModel(m);
+            out += "\tV=" + std::to_string(v->issueCount());
+        }
         out += "\t" + dumpModel(m, true);
-        if (unitsCycle(m)) {
+        if (cyclic) {
             // Model::hasImports (called by printModel) recurses without end on a units reference cycle (finding K3):
             // try the print in a grandchild first so that the crash is observed, not suffered
             fflush(stdout);
